@@ -66,20 +66,27 @@ Print Assumptions C14_threshold_value_gen.
 Fixpoint ones_acc (n : nat) (i acc : Z) : Z :=
   match n with O => acc | S n' => ones_acc n' (i + 1) (Z.setbit acc i) end.
 
-Lemma gen_from_packed_loop_spec : forall p n i acc,
-  (0 <= i)%Z ->
-  gen_from_packed_loop p n i acc = Ok (Z.land p (ones_acc n i acc), Z.shiftr p 112).
-Proof.
-  intros p. induction n as [|n IH]; intros i acc Hi; gen_step gen_from_packed_loop; cbn [ones_acc]; [reflexivity|].
-  destruct (Z.ltb_spec i 0); [lia|]. apply IH. lia.
-Qed.
-
+(* Two shapes are known: the mask built by a counting loop of SetBit calls (found through its call marker), or a
+   package-level constant mask (2^112 - 1 computed from its initialiser). *)
 Theorem gen_from_packed_eq : forall p, gen_from_packed p = Ok (from_packed p).
 Proof.
-  intros p. unfold gen_from_packed, from_packed, ones112. cbv zeta.
-  rewrite gen_from_packed_loop_spec by lia.
-  replace (ones_acc (Z.to_nat (112 - 0)) 0 0) with (2 ^ 112 - 1)%Z by (vm_compute; reflexivity).
-  reflexivity.
+  intros p. gen_open. unfold from_packed, ones112.
+  first
+  [ lazymatch goal with
+    | |- context [gen_loop3 ?f _ _ _] =>
+        assert (L : forall n i acc, (0 <= i)%Z ->
+                      f n i acc = Ok (Z.land p (ones_acc n i acc), Z.shiftr p 112))
+          by (induction n as [|n IH]; intros i acc Hi; gen_loop_step f; cbn [ones_acc]; [reflexivity|];
+              repeat (gen_case; try solve [exfalso; gen_lin]); apply IH; lia);
+        unfold gen_loop3; rewrite L by lia
+    end;
+    replace (ones_acc (Z.to_nat (112 - 0)) 0 0) with (2 ^ 112 - 1)%Z by (vm_compute; reflexivity);
+    reflexivity
+  | (* no loop: the mask is a constant *)
+    lazymatch goal with
+    | |- context [gen_loop3 _ _ _ _] => fail
+    | _ => first [ reflexivity | (repeat f_equal; vm_compute; reflexivity) ]
+    end ].
 Qed.
 Print Assumptions gen_from_packed_eq.
 
